@@ -77,6 +77,44 @@ def run(ctx):
         n_eval += stats['runs']
         for m in metas:
             keys.add(('write', m['directed'], m['assort'], m['from_init']))
+    # ---- K-CLI(model): the real binary against the extracted Gallina front end (CliMain.cli_main) on the same argv and file contents;
+    #      valid configurations (the ones above) and configurations that must end abnormally
+    if res2:
+        import copy
+        bad_metas = []
+        for j, m0 in enumerate(metas[:ctx.budget(10, 60)]):
+            m = copy.deepcopy(m0)
+            m['cid'] = 760000 + j
+            sub = rng.fork('bad%d' % j)
+            kind = j % 7
+            a = list(m['args'])
+            def setopt(o, v):
+                if o in a:
+                    a[a.index(o) + 1] = v
+                else:
+                    a.extend([o, v])
+            if kind == 0:
+                setopt('--r', '0')
+            elif kind == 1:
+                i = a.index('--k'); del a[i:i + 2]
+            elif kind == 2:
+                setopt('--k', '1')
+            elif kind == 3:
+                setopt('--s', 'xyz')
+            elif kind == 4:
+                setopt('--a', 'no_such_file.txt')
+            elif kind == 5:
+                open(os.path.join(m['dir'], 'w_bad.dat'), 'wb').write(files.mismatching_affinity(sub, m['K'], m['L'])[0])
+                setopt('--w', 'w_bad.dat')
+            else:
+                setopt('--maxit', '0')
+            setopt('--o', 'out_bad_%d' % j)
+            m['args'] = a
+            m['out'] = os.path.join(m['dir'], 'out_bad_%d' % j)
+            bad_metas.append(m)
+        stm = cli.compare_with_model(ctx, ctx.bdir, metas + bad_metas)
+        n_eval += stm['cases']
+        keys.add(('cli-model', 'abort'))
     ctx.oracle.update({'evaluations': n_eval, 'distinct_nontrivial': len(keys), 'adjacency_layouts': styles, 'binary_runs': stats,
                        'rule': 'adjacency files rendered in every layout of the grammar (blanks/tabs, indentation, trailing blanks, empty/blank-only lines, CRLF, leading zeros, 64-bit labels) parsed by the real reader and compared with the records; the real binary with all 8 flag combinations and --k 2..4, --r, --maxit, --y, --s, --o (new / existing directory, stale files), affinity files in several layouts, compared file by file at 6 significant digits with the library\'s result for the same inputs. distinct = (kind, layout or variant)'})
     ctx.samples = [{'file': bytes.fromhex(pcases[0].split()[2]).decode('latin-1')}, {'args': metas[0]['args']}]
